@@ -14,11 +14,11 @@ from vmon.ref import geom
 
 ID = 'C19'
 RULE = ('random primitive crystal (all lattice systems, 1-3 orbits, 1-2 species) x random integer supercell matrix with '
-        '|det| in 2..6 x random atom order x noise 1e-10; non-trivial = every case (the supercell always has >=2 primitive '
+        '|det| in 2..6 x random atom order x noise 1e-10 (default threshold) or 1e-7 with threshold=1e-6 (40 %); non-trivial = every case (the supercell always has >=2 primitive '
         'cells); distinct = (kind, atoms per species, supercell matrix)')
 ASSUMPTIONS = ['primitivity of P and the reference group order come from an independent brute-force search (tolerance 1e-6)',
-               'noise amplitude 1e-10 per coordinate (threshold is 1e-8)']
-REQUIRED_OBS = {'supercells_built': 20, 'eval:C19:volume-per-atom': 20, 'eval:C19:group-order': 20}
+               'noise amplitude 1e-10 per coordinate (threshold 1e-8) or 1e-7 (threshold 1e-6); atoms of the description must lie within 60 x noise (direct-coordinate noise times the supercell size, plus the noise of the reference atom) of atoms of the reduced crystal, up to one common translation']
+REQUIRED_OBS = {'supercells_built': 20, 'noisy_supercells': 20, 'eval:C19:atoms-preserved': 20, 'eval:C19:volume-per-atom': 20, 'eval:C19:group-order': 20}
 PER_CASE = 5
 
 
@@ -67,7 +67,13 @@ def run_case(case):
             S = rng.integers(-2, 3, size=(dim, dim))
             det = int(round(np.linalg.det(S)))
             if 2 <= abs(det) <= 6: break
-        latt, newbasis = supercell_atoms(P.lattice, P.basis, S, rng)
+        # positions either exact to round-off (noise 1e-10, default threshold 1e-8) or with relaxation-like noise 1e-7 and a user
+        # threshold of 1e-6 (copies of one atom then sit on both sides of a reduced-cell face)
+        noisy = rng.uniform() < 0.4
+        noise = 1e-7 if noisy else 1e-10
+        kwc = {'threshold': 1e-6} if noisy else {}
+        latt, newbasis = supercell_atoms(P.lattice, P.basis, S, rng, noise=noise)
+        mon.count('noisy_supercells', noisy)
         mon.count('supercells_built')
         mon.seen('dets', abs(det))
         desc = {'kind': spec['kind'], 'P_lattice': P.lattice, 'P_basis': P.basis, 'S': S, 'hashseed': case.get('hashseed')}
@@ -75,7 +81,7 @@ def run_case(case):
         mon.sig([spec['kind'], [len(l) for l in P.basis], S.tolist()])
         with contracts.active(mon):
             try:
-                Q = crystal.Crystal(latt, newbasis)
+                Q = crystal.Crystal(latt, newbasis, **kwc)
             except Exception as e:
                 mon.check(False, 'C19:construct', '%s: %s | %s' % (type(e).__name__, e, desc))
                 continue
@@ -86,6 +92,25 @@ def run_case(case):
         mon.check(np.linalg.det(Q.lattice) > 0, 'C19:right-handed', desc)
         mon.check(len(Q.G) == len(refG) and len(Q.G) == len(P.G), 'C19:group-order',
                   '|G(Q)|=%d |G(P)|=%d independent=%d Qlatt=%s %s' % (len(Q.G), len(P.G), len(refG), Q.lattice.tolist(), desc))
+        # every atom of the description lies on an atom of the same species of the reduced crystal, up to ONE common translation
+        # (the constructor re-centres the cell)
+        Qinv = np.linalg.inv(Q.lattice)
+        if [len(a) for a in Q.basis] == [len(a) for a in P.basis]:
+            uq = [[Qinv @ (latt @ u) for u in lst] for lst in newbasis]
+            best = (np.inf, None)
+            for v0 in Q.basis[0]:
+                t = v0 - uq[0][0]
+                worst, lost = 0., None
+                for c, lst in enumerate(uq):
+                    for u in lst:
+                        d = min(np.linalg.norm(Q.lattice @ geom.wrap_half(u + t - v)) for v in Q.basis[c])
+                        if d > worst: worst, lost = d, (c, u.tolist())
+                    if worst > best[0]: break
+                if worst < best[0]: best = (worst, lost)
+            worst, lost = best
+            mon.note_max('atom_displacement_noisy' if noisy else 'atom_displacement_exact', worst)
+            mon.check(worst <= 60 * noise + 1e-9, 'C19:atoms-preserved',
+                      lambda: 'no common translation maps the description onto the reduced crystal: atom %s stays %.3e away (noise %.0e) %s' % (lost, worst, noise, desc))
         # the reduced lattice is a lattice of the same crystal: P's lattice vectors are integer combinations
         comb = np.linalg.solve(Q.lattice, P.lattice)
         mon.check(np.allclose(comb, np.round(comb), atol=1e-6) and abs(abs(np.linalg.det(comb)) - 1) < 1e-6,
